@@ -139,9 +139,20 @@ impl<'a> crate::analysis::backward_interprocedural_fixpoint::Context<'a> for Con
     fn split_return_stub(
         &self,
         _combined_value: &Self::Value,
-        _returned_from_sub: &Term<Sub>,
+        returned_from_sub: &Term<Sub>,
     ) -> Option<Self::Value> {
-        Some(self.all_physical_registers.clone())
+        let mut alive_variables = self.all_physical_registers.clone();
+        // The return target expressions may contain virtual registers
+        for block in returned_from_sub.term.blocks.iter() {
+            for jmp in block.term.jmps.iter() {
+                if let Jmp::Return(expression) = &jmp.term {
+                    for input_var in expression.input_vars() {
+                        alive_variables.insert(input_var.clone());
+                    }
+                }
+            }
+        }
+        Some(alive_variables)
     }
 
     /// At a call instruction we assume all physical registers to be alive.
